@@ -146,7 +146,26 @@ pub struct Judged {
 }
 
 pub fn judge_program(name: &str, ast: &Program, depth: usize) -> Judged {
+    judge_source(name, &ast.render(), ast, depth)
+}
+
+/// the source text a family gives the compiler for an AST: the plain rendering, or (families whose
+/// name ends in "flat") the same text without any indentation — Ink reads nesting from the
+/// markers, never from the indentation
+pub fn source_of(fam: &str, ast: &Program) -> String {
     let src = ast.render();
+    if fam.ends_with("flat") {
+        src.lines().map(|l| l.trim_start()).collect::<Vec<_>>().join("\n") + "\n"
+    } else if fam.ends_with("tight") {
+        // blanks that Ink does not need: `-else:` is the same branch marker as `- else:`
+        src.replace("- else:", "-else:")
+    } else {
+        src
+    }
+}
+
+pub fn judge_source(name: &str, src: &str, ast: &Program, depth: usize) -> Judged {
+    let src = src.to_string();
     let mut j = Judged::default();
     let prog = match Prog::from_source(name, &src) {
         CompileOutcome::Ok(p) => p,
@@ -249,7 +268,9 @@ pub fn family_nth(fam: &str, k: usize, a: usize, i: usize) -> (String, Program) 
     match fam {
         "loop" => inkgen::loop_nth(k, a, i),
         "stitch" => inkgen::stitch_nth(k, a, i),
-        "shape" => inkgen::shape_nth(k, i),
+        "shape" | "shapeflat" => inkgen::shape_nth(k, i),
+        "segtight" => inkgen::seg_nth(k, a, i),
+        "shaperoot" => inkgen::shape_root_nth(k, i),
         _ => inkgen::seg_nth(k, a, i),
     }
 }
@@ -265,10 +286,10 @@ pub fn run(tier: Tier) -> i32 {
     }
     let a = inkgen::ITEM_NAMES.len();
     let (fams, depth, secs): (Vec<(&str, usize)>, usize, u64) = match tier {
-        Tier::Quick => (vec![("seg", 1), ("seg", 2), ("loop", 1), ("loop", 2), ("stitch", 1), ("shape", 1), ("shape", 2)], 4, 55),
-        Tier::Thorough => (vec![("seg", 1), ("seg", 2), ("seg", 3), ("loop", 1), ("loop", 2), ("stitch", 1), ("stitch", 2), ("shape", 1), ("shape", 2)], 5, 2400),
+        Tier::Quick => (vec![("seg", 1), ("seg", 2), ("loop", 1), ("loop", 2), ("stitch", 1), ("shape", 1), ("shape", 2), ("shapeflat", 1), ("shaperoot", 1), ("segtight", 1)], 4, 55),
+        Tier::Thorough => (vec![("seg", 1), ("seg", 2), ("seg", 3), ("loop", 1), ("loop", 2), ("stitch", 1), ("stitch", 2), ("shape", 1), ("shape", 2), ("shapeflat", 1), ("shapeflat", 2), ("shaperoot", 1), ("shaperoot", 2), ("segtight", 1), ("segtight", 2)], 5, 2400),
     };
-    let counts: Vec<usize> = fams.iter().map(|(f, k)| if *f == "shape" { inkgen::shape_count(*k) } else { inkgen::seg_count(*k, a) }).collect();
+    let counts: Vec<usize> = fams.iter().map(|(f, k)| if f.starts_with("shape") { inkgen::shape_count(*k) } else { inkgen::seg_count(*k, a) }).collect();
     let n: usize = counts.iter().sum();
     let locate = |mut i: usize| -> (&str, usize, usize) {
         for (fi, c) in counts.iter().enumerate() {
@@ -284,7 +305,9 @@ pub fn run(tier: Tier) -> i32 {
         let (fam, k, li) = locate(i);
         let (name, ast) = family_nth(fam, k, a, li);
         st.inc(&format!("programs::{fam}{k}"));
-        let j = judge_program(&name, &ast, depth);
+        let src = source_of(fam, &ast);
+        let name = if fam == "shapeflat" || fam == "shaperoot" { name.replacen("shape", fam, 1) } else if fam == "segtight" { name.replacen("gen", "tight", 1) } else { name };
+        let j = judge_source(&name, &src, &ast, depth);
         st.inc("programs");
         st.add("paths", j.paths);
         st.add("transitions", j.transitions);
@@ -292,6 +315,23 @@ pub fn run(tier: Tier) -> i32 {
             st.see("states", &h.to_string());
         }
         st.max("max::choices_at_a_stop", j.max_choices as u64);
+        // (not the stitch family: it cuts a slot item in two, and a bare label reference that
+        // crosses the cut is not certainly valid Ink)
+        if let Some(nv) = &j.no_verdict
+            && let Some(why) = nv.strip_prefix("rejected by the compiler: ")
+            && fam != "stitch"
+        {
+            // the generated programs are valid Ink by construction (and inside the calibrated
+            // core): one the compiler refuses cannot be played by Ink's rules at all
+            st.inc("rejected_by_compiler");
+            st.violation(Violation {
+                property: ID.into(),
+                class: format!("{ID}/rejected/{name}"),
+                what: format!("the compiler refuses a valid program: {why} [program {name}]"),
+                artefact: json!({"check": "c01", "family": fam, "k": k, "a": a, "index": li, "program": name, "source": src, "path": [], "aspect": "rejected"}),
+            });
+            return;
+        }
         if let Some(nv) = &j.no_verdict {
             st.inc("no_verdict");
             let kind = nv.split(':').next().unwrap_or("").to_string();
@@ -311,7 +351,7 @@ pub fn run(tier: Tier) -> i32 {
                 property: ID.into(),
                 class: format!("{ID}/model/{aspect}/{name}"),
                 what: format!("{what} [program {name}, choice path {path:?}]"),
-                artefact: json!({"check": "c01", "family": fam, "k": k, "a": a, "index": li, "program": name, "source": ast.render(), "path": path, "aspect": aspect}),
+                artefact: json!({"check": "c01", "family": fam, "k": k, "a": a, "index": li, "program": name, "source": src, "path": path, "aspect": aspect}),
             });
         }
     });
@@ -348,8 +388,9 @@ pub fn run(tier: Tier) -> i32 {
 
 pub fn replay(art: &Value) -> String {
     let (k, a, i) = (art["k"].as_u64().unwrap_or(1) as usize, art["a"].as_u64().unwrap_or(1) as usize, art["index"].as_u64().unwrap_or(0) as usize);
-    let (name, ast) = family_nth(art["family"].as_str().unwrap_or("seg"), k, a, i);
-    let j = judge_program(&name, &ast, 5);
+    let fam = art["family"].as_str().unwrap_or("seg");
+    let (name, ast) = family_nth(fam, k, a, i);
+    let j = judge_source(&name, &source_of(fam, &ast), &ast, 5);
     match (j.violation, j.no_verdict) {
         (Some((aspect, what, path)), _) => format!("{name}: {aspect}: {what} at {path:?}"),
         (None, Some(nv)) => format!("{name}: no verdict: {nv}"),
